@@ -229,7 +229,9 @@ Step(e) ==
             ELSE IF UnflushedRequests THEN Flag(HarmReq({"C02", "C09"}), "quiescent_request_unflushed")
             ELSE Stutter
       [] e.ev = "finished" ->
-            IF ~closed THEN Flag({"C16"}, "finished_without_close")
+            \* a router that ends while its registration channel is open is a dead topic: nobody who registers
+            \* afterwards is served (C11: every open is answered *truthfully*; C08 when a peer's failure led to it)
+            IF ~closed THEN Flag(Harm({"C16", "C11"}), "finished_without_close")
             ELSE IF UnflushedReplies THEN Flag(Harm({"C16"}), "finished_reply_unflushed")
             ELSE Stutter
       [] OTHER -> Stutter
